@@ -163,11 +163,9 @@ def rewrite_diff(old: odict, new: odict, diff_pre: odict, _pops: tuple[Op, ...] 
     _pops = _pops + rewrite_tail
     diff = base_diff(old, new, diff_pre, _pops, moved_to_affected=False)
     # если мы rewrite верхнего уровня, и в поддереве все Op.AFFECTED
-    # то есть не было совершенно никаких изменений, удаляем его из дифа
+    # то есть не было совершенно никаких изменений, оставляем их как есть: mark_unchanged пометит их UNCHANGED
     if rewrite_marker not in _pops[:-len(rewrite_tail)]:
-        if all(its[i].op == Op.AFFECTED for i, its in iter_diff(diff)):
-            diff.clear()
-        else:
+        if not all(its[i].op == Op.AFFECTED for i, its in iter_diff(diff)):
             for i, items in iter_diff(diff):
                 if items[i].op == Op.AFFECTED:
                     items[i] = items[i]._replace(op=Op.MOVED)
